@@ -4,9 +4,9 @@
 package fw
 
 import (
-	"io"
 	"bytes"
 	"fmt"
+	"io"
 	"net/http"
 	"strconv"
 	"strings"
@@ -38,7 +38,7 @@ type Fault struct {
 	Status  int    `json:"status,omitempty"` // for kind=status (4xx/5xx with JSON error body) or ok (200..203)
 	Records int    `json:"records,omitempty"`
 	CT      string `json:"content_type,omitempty"`
-	Body    []byte `json:"-"` // overrides the origin-tagged body
+	Body    []byte `json:"-"`                // overrides the origin-tagged body
 	GapUS   int    `json:"gap_us,omitempty"` // pause between the body writes
 }
 
